@@ -117,6 +117,18 @@ def sockfault_pool():
     return scen
 
 
+def rawfail_pool():
+    """the start phase fails with an exception that is not a network error: the object is used up all the same (closed; a
+    second attempt refused), and what the caller gets is a library error.  No model event carries the class: tag nomodel."""
+    scen = []
+    for kind in ("unicode", "overflow", "type", "value", "key", "runtime"):
+        scen.append((False, [("callStart",), ("resolvedExc", kind), S, S, ("callStart",), S, ("callFinish",), S], "nomodel-rawfail"))
+        scen.append((False, [("callStart",), ("resolved", 1), S, ("sockExc", kind), S, S, ("callStart",), S, ("callFinish",), S],
+                     "nomodel-rawfail"))
+        scen.append((True, [("callStart",), ("resolvedExc", kind), ("force",), S, S, ("callStart",), S], "nomodel-rawfail"))
+    return scen
+
+
 def noise_pool():
     """a device that speaks Noise but falls silent at some point of the connect (the handshake never completes):
     only the library's timers can end the wait"""
